@@ -8,6 +8,7 @@ import TeakraModel.Exec.Control
 import TeakraModel.Exec.Stack
 import TeakraModel.Exec.Mul
 import TeakraModel.Exec.Modr
+import TeakraModel.Exec.Mov
 /-! Aggregates the instruction handler families (`TeakraModel/Exec/*.lean`). -/
 namespace Teakra
 /-- An opcode outside the part of the handler set that is modelled so far. -/
